@@ -236,6 +236,11 @@ def _layer_job(args):
     missing = []
     for v in author:
         if v in emitted and lists and not all(v in l for l in lists):
+            # is the emitted `v` really the author's label?  (a label on a multi-key entity is not printed at all, and the
+            # compiler's own invented D / CNT may be spelled the same): rename the label; an unchanged output means it is not emitted
+            ren = rt.compile_cnl(decl + re.sub(r'\b' + re.escape(v) + r'\b', 'QZW', sent_text) + '\n')
+            if ren[0] == 'ok' and r1[0] == 'ok' and ren[1] == r1[1]:
+                continue
             missing.append(v)
     return {'lists': lists[:3], 'missing': missing}
 
